@@ -212,7 +212,7 @@ pub struct CliOpts {
 
 impl Default for CliOpts {
     fn default() -> CliOpts {
-        CliOpts{timeout: Duration::from_secs(10), arg: None, cwd: None, env: vec![], stdin_closed: false}
+        CliOpts{timeout: Duration::from_secs(5), arg: None, cwd: None, env: vec![], stdin_closed: false}
     }
 }
 
